@@ -276,7 +276,26 @@ fn case_inner(run: &mut Run, rng: &mut Rng) {
         fail!("C15/single-symbol", "single-symbol codebook has codeword {:?}", codewords[0]);
     }
     // out-of-alphabet symbols rejected
-    for bad in [n, n + 1, 2 * n, usize::MAX, usize::MAX / 2] {
+    // (fixed corner values plus values that alias an in-alphabet symbol or a node index after
+    // shifts, additions of powers of two, truncation or wrap-around)
+    let mut probes: Vec<usize> = vec![n, n + 1, 2 * n, 2 * n - 1, 2 * n + 1, usize::MAX, usize::MAX - 1, usize::MAX / 2, usize::MAX / 2 + 1];
+    for _ in 0..16 {
+        let k = rng.below(n as u64) as usize;
+        let b = rng.below(64) as u32;
+        let v = match rng.below(7) {
+            0 => k | 1usize << b,
+            1 => k.wrapping_add(1usize << b),
+            2 => (1usize << b).wrapping_sub(k),
+            3 => usize::MAX - k,
+            4 => k.wrapping_add(n.wrapping_mul(rng.below(1 << 20) as usize + 1)),
+            5 => (k >> 1) | 1usize << 63,
+            _ => rng.u64() as usize,
+        };
+        probes.push(v);
+    }
+    probes.retain(|&v| v >= n);
+    run.count("out_of_alphabet_probes", probes.len() as u64);
+    for bad in probes {
         match enc.encode_symbol_prefix(bad, |_| Ok::<(), core::convert::Infallible>(())) {
             Err(CoderError::Frontend(DefaultEncoderFrontendError::ImpossibleSymbol)) => {}
             other => fail!("C15/out-of-alphabet-accepted", "symbol {bad} (alphabet size {n}) returned {other:?}"),
